@@ -110,6 +110,18 @@ func c04Plan(tier string) []PlanItem {
 			items = append(items, PlanItem{scnValidate(p, "leader-before-tick", m, 0, false), 1})
 		}
 	}
+	// a call that lasts until its 5 s deadline (its read hangs): meanwhile the term the call
+	// started in ends (the outside record is met by the next heartbeat) and, once that record
+	// has lapsed, the instance leads a new term when the verdict is returned
+	for _, p := range []string{`{"id":"X","token":"tok-x","priority":0}`, "", "$SAME_ID_OTHER_TOKEN", "not json at all"} {
+		for _, m := range []string{"validate", "validateOrDemote"} {
+			s := scnValidate(p, "leader", m, 5000*ms, true)
+			s.Name += "/until-deadline"
+			s.Horizon = 1*s.H + 43*ms + 5*us + 5000*ms + 3*s.H
+			s.MaxSteps = 4000
+			items = append(items, PlanItem{s, 1})
+		}
+	}
 	return items
 }
 
@@ -117,7 +129,7 @@ func init() {
 	oracles["C04"] = oracleC04
 	props["C04"] = &propDef{
 		Level:  "exploration",
-		Rule:   "product of payload alphabet (50 record shapes incl. own payload variants, wrong types, missing/duplicate/case-variant keys, truncated, 1 MiB, invalid UTF-8) x caller state {leader, follower, demoted, stopped} x {ValidateToken, ValidateTokenOrDemote} x context {background, cancelled, 50ms deadline, 5s deadline, no deadline but cancelled 30ms into the call}; on each, every execution with <= D deviations (position of the outside write and of the call at every choice point, read delayed up to H/2, read error, read hang past the deadline); non-trivial = a validation call returned; distinct = distinct observation-trace hash",
+		Rule:   "product of payload alphabet (50 record shapes incl. own payload variants, wrong types, missing/duplicate/case-variant keys, truncated, 1 MiB, invalid UTF-8) x caller state {leader, follower, demoted, stopped} x {ValidateToken, ValidateTokenOrDemote} x context {background, cancelled, 50ms deadline, 5s deadline, no deadline but cancelled 30ms into the call}; on each, every execution with <= D deviations (position of the outside write and of the call at every choice point, read delayed up to H/2, read error, read hang past the deadline); plus calls that last until their 5s deadline while the caller's term ends and a new one begins; non-trivial = a validation call returned; distinct = distinct observation-trace hash",
 		Assume: []string{"byte strings outside the alphabet are not decided", "the read's linearisation point is the instant the harness applies the Get"},
 		Plan:   c04Plan,
 	}
